@@ -187,6 +187,8 @@ def expected_outputs(op, outcome):
 def direct(case, obs):
     if "driver_exception" in obs:
         return [("driver", obs["driver_exception"] + obs.get("trace", "")[-400:])]
+    if f07c_affected(obs):
+        return []          # region of known finding F07c (reported by C01): nothing is concluded from such a case
     fails = []
     if len(case["runs"]) < 2 or case["runs"][0]["kind"] != "record":
         return fails
